@@ -150,7 +150,7 @@ class BroydenInterp(RInterp):
         return RInterp.ev_Index(self, n)
 
 
-def check_broyden(F, run):
+def check_broyden(F, run, dim=2):
     """R8.5 (secant): the rank-one update of the inverse Jacobian is Broyden's 'good' update in Sherman–Morrison form.  With H the old
     inverse, s the last step and y the change of the function value, the new inverse H' is characterised by
       (i)  the secant equation  H'·y = s,   and
@@ -160,7 +160,7 @@ def check_broyden(F, run):
     b = F.fn(path)
     run.analysed(b)
     st, loop = loop_of(b)
-    d = BroydenInterp.DIM
+    BroydenInterp.DIM = d = dim
     H = sp.ImmutableMatrix(d, d, [sp.Symbol("H%d%d" % (i, j), real=True) for i in range(d) for j in range(d)])
     s = sp.ImmutableMatrix(d, 1, [sp.Symbol("s%d" % i, real=True) for i in range(d)])
     fo = sp.ImmutableMatrix(d, 1, [sp.Symbol("fold%d" % i, real=True) for i in range(d)])
@@ -188,11 +188,11 @@ def check_broyden(F, run):
                   "the function is evaluated %d time(s), at %s; expected once at the current iterate" % (len(p.interp.fresh), at))
         sec = (H2 * y - s).applyfunc(lambda e: sp.cancel(sp.together(e)))
         run.check(sec.is_zero_matrix, "R8.5", path, "broyden:secant-equation", F.loc(b, loop),
-                  "the updated inverse Jacobian H' does not satisfy the secant equation H'·(f_new − f_old) = last step (2×2 symbolic system, non-symmetric H): "
-                  "defect component 0 = %s" % str(sp.factor(sec[0]))[:160], sample="H'·y = s")
+                  "the updated inverse Jacobian H' does not satisfy the secant equation H'·(f_new − f_old) = last step (%d×%d symbolic system, non-symmetric H): "
+                  "defect component 0 = %s" % (d, d, str(sp.factor(sec[0]))[:160]), sample="H'·y = s")
         dH = (H2 - H).applyfunc(lambda e: sp.cancel(sp.together(e)))
         u = (s.T * H)
-        minors = [sp.cancel(sp.together(dH[i, 0] * u[0, 1] - dH[i, 1] * u[0, 0])) for i in range(d)]
+        minors = [sp.cancel(sp.together(dH[i, j] * u[0, k] - dH[i, k] * u[0, j])) for i in range(d) for j in range(d) for k in range(j + 1, d)]
         run.check(all(m == 0 for m in minors), "R8.5", path, "broyden:rank-one-in-row-space-sTH", F.loc(b, loop),
                   "H' − H is not of the form w·(sᵀH): its rows are not proportional to sᵀH (Sherman–Morrison form of Broyden's update)", sample="H' − H = w·(sᵀH)")
         stp = (s2 + H2 * fn).applyfunc(lambda e: sp.cancel(sp.together(e)))
@@ -499,6 +499,11 @@ def check_muller_starts(F, run):
 
 def run(F, run, tier):
     fdjac.analyse(F, run, "C08", "R8.1", "roots")
+    from rules import lm
+    try:
+        lm.check_coverage(F, run, "R8.1", "roots::jac_finite_diff", "roots-fd")
+    except Missing as e:
+        run.broken("R8.1", "roots::jac_finite_diff", "anchor", "src/roots", str(e))
     lps_by_fn = {}
     for path, old in FNS.items():
         try:
@@ -509,7 +514,7 @@ def run(F, run, tier):
     check_linear_algebra(F, run)
     check_formulas(F, run, lps_by_fn)
     try:
-        check_broyden(F, run)
+        check_broyden(F, run, 3 if tier == "thorough" else 2)
     except Missing as e:
         run.broken("R8.5", "roots::secant", "anchor", "src/roots", str(e))
     check_aitken_guard(F, run)
